@@ -368,6 +368,8 @@ def calc_outcome_rule(ctx, facts, rid):
             lab = e[2]
             truth = not (lab != "else" and 0 in lab)
             s = show(d)
+            if d[0] == "const":
+                continue          # a flag the path has already fixed (`matches!(..)` keeps its result in a temporary)
             if d[0] == "discr" and "calc_outcome(&*self.board)" in s and "passes" not in s:
                 cons["some"] = (lab != "else" and 1 in lab)
             elif d[0] == "call" and d[1] == OUT + "::passes":
